@@ -21,6 +21,7 @@ func verifRawLink(k Keeper, ctx sdk.Context, key string) ([]byte, bool) {
 
 // A published payload link can never be overwritten or removed by any later publish / store message.
 func Verif_C15_links_write_once() {
+	verifJSONStringsOnly = true // which keys a document has does not matter for where StoreSignature writes
 	k := verifSignatureKeeper()
 	ctx := verifCtx(verif_time_range("now", 1600000000, 1900000000))
 	k0 := verif_str("existingKey")
